@@ -77,7 +77,7 @@ ASSUMPTIONS = [
     "and 'finite and within 1.5 px' for up=1",
     "aligned image vs reference: rigorous Parseval bound ||T_r im - T_s im||_2 <= pi*bw*(|d_r|+|d_c|) ||im||_2 with d = r - s",
 ]
-BUDGET = {"quick": {"soft_s": 100}, "thorough": {"soft_s": 540}}
+BUDGET = {"quick": {"soft_s": 300}, "thorough": {"soft_s": 1200}}
 MIN_EVALUATIONS = {"quick": 800, "thorough": 20000}
 REQUIRED_COUNTERS = [
     "eval:shift_error_sub_up1",
